@@ -45,7 +45,10 @@ CHECKS = {
                      "with charge sets covering 7 position classes (on a centre, mid-bond, on an axis, near, far, "
                      "1e-7 off a centre; Boys arguments 0..2e9 recorded) and, for a sub-family, all 119 subsets of "
                      "1..5 classes; each per-charge slice compared with an independent McMurchie-Davidson "
-                     "reference at 1e-8*sqrt(V_aa V_bb); the nuclear-attraction matrix compared with the sum.",
+                     "reference at 1e-8*sqrt(V_aa V_bb); the nuclear-attraction matrix compared with the sum. Long-range "
+                     "tail-ladder geometries, Boys-argument ladder charges, atom-index labels and argument "
+                     "representations are part of the product. One recorded finding (F1, long-range g/h diffuse-vs-"
+                     "tight pairs) is printed as KNOWN-FINDING.",
                 technique="exhaustive enumeration of a finite configuration product against a reference model"),
     "C04": dict(engine=E1, ref="5/C04",
                 text="Every one of the 256 (l<=3) shell quartets in its own orientation x geometry classes x "
@@ -154,7 +157,9 @@ CHECKS = {
                      "are all 48 signed axis permutations and three generic proper/improper rotations combined with "
                      "three translation classes, composed to depth 2; on every edge every public quantity must obey its "
                      "transformation law (representation matrices on basis indices, vector / tensor / axial-vector "
-                     "rules, d x p shift, invariance of scalars).",
+                     "rules, d x p shift, invariance of scalars); translations by 1e3 and 1e4 bohr on a moderate-exponent "
+                     "seed with a conditioning-limited tolerance. One recorded finding (F2, ERI with wide-range high-l "
+                     "contractions) is printed as KNOWN-FINDING.",
                 note="trusted base: representation matrices from independent polynomial substitution and the reference "
                      "harmonics (mc/ref/rep.py); differential oracle between two runs of the implementation",
                 technique="explicit-state BFS over rigid motions (complete finite group) with covariance-law oracle"),
@@ -164,7 +169,9 @@ CHECKS = {
                      "re-normalisation), run until no new state appears, so the invariants (arguments bit-identical, "
                      "numpy error state / warnings filters / module globals restored on return and raise, repeated and "
                      "path-independent results, unit normalisation after renormalisation) are established for call "
-                     "sequences of every length over that alphabet, from several initial error states.",
+                     "sequences of every length over that alphabet, from several initial error states; every reached "
+                     "state is additionally compared with a freshly started process (one fork per probe), which decides "
+                     "history independence without forbidding correct caches.",
                 note="trusted base: the state key (bit-exact snapshot of every shared object, global numerical state and "
                      "gbasis module globals); python deepcopy",
                 technique="explicit-state search over call histories to closure with invariants on every transition"),
